@@ -453,7 +453,9 @@ impl<'a> Sim<'a> {
                     }
                 }
                 Taint::Healthy => {
-                    let complete = c.rest.is_none();
+                    // every call that is complete on the wire is owed its reply once the server is
+                    // idle, also when the beginning of a later frame has already arrived
+                    let complete = true;
                     let n = out.len().min(c.expected.len());
                     if out[..n] != c.expected[..n] || out.len() > c.expected.len() {
                         let class = classify_output_diff(&out, &c.expected, &self.conns, i);
@@ -800,7 +802,7 @@ fn base_assumptions() -> Vec<String> {
     vec![
         "the server task is polled only when its waker fired (lost wake-ups show up as missing replies)".into(),
         "`continues: false` and an absent `continues` are the same reply".into(),
-        "a call is owed its reply once its frame has completely arrived and the server is idle; while a later frame of the same connection is only partly there, earlier replies may still be outstanding (prefix check)".into(),
+        "a call is owed its reply once its frame has completely arrived and the server is idle, whether or not the beginning of a later frame has arrived too".into(),
     ]
 }
 
